@@ -37,6 +37,9 @@ def cases(tier, seed):
     pairs = list(itertools.product(STARTS, STEPS))
     for start, step in pairs:
         yield dict(kind='grid', start=start, step=step, ns=ns, K=K)
+    # steps whose reciprocal is not an integer / which are coarser than 0.1, on integral and non-integral starts
+    for start, step in itertools.product([4.0, -2.0, 0.0, 100.0, 5.95, -0.5], [0.3, 0.4, 0.6, 0.7, 0.15, 0.125, 0.75, 1.5]):
+        yield dict(kind='grid', start=start, step=step, ns=[1, 7, 31], K=16)
     for start, step in NOISY:
         yield dict(kind='grid', start=start, step=step, ns=[1, 7, 100], K=K, noisy=True)
     yield dict(kind='named', name='CSEP_MW_BINS', K=4096 if tier == 'thorough' else 1024)
@@ -47,6 +50,8 @@ def cases(tier, seed):
             yield dict(kind='named', name=f'{r}.{ax}', K=4096 if tier == 'thorough' else 512)
     for start, step in itertools.product([0, -5, 100], [1, 2, 5]):
         yield dict(kind='intgrid', start=start, step=step)
+    # ORDER of the first calls in a process: every ordered pair of (dtype of points, dtype of edges) binnings, the second one judged
+    yield dict(kind='order')
     if tier == 'quick':
         # seed-selected additional complete block: the 3600-bin grids of one (start, step) pair
         start, step = pairs[seed % len(pairs)]
@@ -163,6 +168,10 @@ def build_edges(desc):
     if how == 'decimal':
         return ref
     end = float(ref[-1])
+    if '[' in how:
+        conv = {'int-start': int, 'int64-start': numpy.int64, 'float64-start': numpy.float64}[how[how.index('[') + 1:-1]]
+        fn = cleaner_range if how.startswith('cleaner_range') else regions.magnitude_bins
+        return numpy.asarray(fn(conv(start), end, step), dtype=float)
     if how == 'cleaner_range':
         return numpy.asarray(cleaner_range(start, end, step), dtype=float)
     if how == 'magnitude_bins':
@@ -310,7 +319,11 @@ def run_case(case):
         for n in case['ns']:
             ref = build_edges(dict(how='decimal', start=start, step=step, n=n))
             if not case.get('noisy'):
-                for how in ('cleaner_range', 'magnitude_bins'):
+                hows = ('cleaner_range', 'magnitude_bins')
+                if float(start).is_integer():
+                    # the same grid with the start handed over as a Python int / numpy integer / numpy.float64
+                    hows += ('cleaner_range[int-start]', 'magnitude_bins[int-start]', 'cleaner_range[int64-start]', 'cleaner_range[float64-start]')
+                for how in hows:
                     desc = dict(how=how, start=start, step=step, n=n)
                     if n == 0:
                         continue   # a single edge is not produced by a range generator
@@ -343,7 +356,7 @@ def run_case(case):
                         failures.append(Fail(f'csep.utils.calc.cleaner_range|edge-not-nearest-decimal|{how}',
                                              f'{desc}: edge[{k}]={E[k]!r}, float nearest to decimal start+k*step is {ref[k]!r}',
                                              dict(kind='gen', **desc)))
-                    if how == 'cleaner_range' and len(E) >= 1:
+                    if how.startswith('cleaner_range') and '[' not in how and len(E) >= 1:
                         e, nt, st = run_grid(E, case['K'], desc, failures, hsh, forms=(n <= 100))
                         evals += e
                         nontriv += nt
@@ -368,6 +381,39 @@ def run_case(case):
         if case['name'] == 'CSEP_MW_BINS':
             evals += differential(E, desc, failures, hsh)
         sample = dict(named=case['name'], n_edges=len(E), K=case['K'], first_edges=[float(x) for x in E[:3]])
+    elif case['kind'] == 'order':
+        from csep.utils.calc import bin1d_vec
+        from mc import engine
+        grids = {'f64-mag': numpy.array([floats.decimal_grid(5.95, 0.1, k) for k in range(31)]), 'int-depth': numpy.array([0, 10, 20, 30]),
+                 'f32-mag': numpy.array([floats.decimal_grid(5.95, 0.1, k) for k in range(31)]).astype(numpy.float32)}
+
+        def probes(name, pdt):
+            E = grids[name].astype(float)
+            if pdt == 'float64' and name != 'f32-mag':     # (single-precision edges carry a single-precision tolerance: mid-bin probes only)
+                v = numpy.concatenate([E[1:] - d for d in (1e-6, 1e-8, 1e-10)] + [E[:-1] + 0.03])       # far outside any float64 tolerance
+                want = numpy.concatenate([numpy.arange(len(E) - 1)] * 3 + [numpy.arange(len(E) - 1)])
+            else:
+                v = (E[:-1] + (E[1] - E[0]) / 2).astype(numpy.float32)                                    # mid-bin: clear in float32 too
+                want = numpy.arange(len(E) - 1)
+            return v, want
+        combos = [(g, p) for g in grids for p in ('float64', 'float32')]
+        for first in combos:
+            for second in combos:
+                engine._reset_library_state()            # each ordered pair starts from the state of a fresh process
+                v1, _ = probes(*first)
+                bin1d_vec(v1, grids[first[0]], right_continuous=True)
+                v2, want = probes(*second)
+                got = numpy.asarray(bin1d_vec(v2, grids[second[0]], right_continuous=True))
+                evals += 1
+                states += 1
+                nontriv += 1
+                hsh.update(got.tobytes())
+                if not numpy.array_equal(got, want):
+                    k = int(numpy.nonzero(got != want)[0][0])
+                    failures.append(Fail('csep.utils.calc.bin1d_vec|result-depends-on-an-earlier-call-with-another-dtype|open',
+                                         f'first call: {first[1]} points on {first[0]} edges; then {second[1]} points on {second[0]} edges: value {v2[k]!r} -> bin {int(got[k])}, expected {int(want[k])} '
+                                         f'[{int((got != want).sum())} of {len(want)}]', dict(kind='order')))
+        sample = dict(order_pairs=len(combos) ** 2)
     elif case['kind'] == 'intgrid':
         from csep.utils.calc import bin1d_vec
         start, step = case['start'], case['step']
